@@ -22,7 +22,7 @@ EXTENDS Naturals, FiniteSets, TLC, Json
 
 CONSTANTS
     Kinds,      \* spellings of the evt_kind property
-    Extents,    \* "none", "point", "range", "emptyRange"
+    Extents,    \* "none", "point", "range", "emptyRange" (start = end), "backRange" (end < start)
     Vals,       \* shapes of the metric_value property
     Aggs,       \* spellings of the metric_agg property
     Emit        \* TRUE: print one REPLAY line per case
@@ -47,7 +47,8 @@ KindParse(k) ==
 KindReadings(k) ==
     IF k \in {"SPAN", "padMetric"} THEN {KindParse(k), "none"} ELSE {KindParse(k)}
 
-IsRange(e) == e \in {"range", "emptyRange"}
+\* Extent::as_range: any extent built as a range, whatever the order of its bounds
+IsRange(e) == e \in {"range", "emptyRange", "backRange"}
 
 \* "a numeric or numeric-sequence value"; the empty sequence is a don't-care
 NumericReadings(v) ==
